@@ -93,9 +93,18 @@ func writeFileAtomic(filename string, data []byte, perm os.FileMode) error {
 	return os.Rename(tmp, filename)
 }
 
+// validMID reports whether the message ID is safe to use as a file name inside
+// the mailbox. MIDs are chosen by the remote station.
+func validMID(mid string) bool {
+	return mid != "" && mid != "." && mid != ".." && !strings.ContainsAny(mid, "/\\\x00")
+}
+
 func (h *DirHandler) ProcessInbound(msgs ...*fbb.Message) (err error) {
 	dir := path.Join(h.MBoxPath, DIR_INBOX)
 	for _, m := range msgs {
+		if !validMID(m.MID()) {
+			return fmt.Errorf("Unable to write received message: invalid MID %q", m.MID())
+		}
 		filename := path.Join(dir, m.MID()+Ext)
 
 		m.Header.Set("X-Unread", "true")
@@ -113,7 +122,7 @@ func (h *DirHandler) ProcessInbound(msgs ...*fbb.Message) (err error) {
 }
 
 func (h *DirHandler) GetInboundAnswer(p fbb.Proposal) fbb.ProposalAnswer {
-	if h.sendOnly {
+	if h.sendOnly || !validMID(p.MID()) {
 		return fbb.Defer
 	}
 
@@ -132,6 +141,10 @@ func (h *DirHandler) GetInboundAnswer(p fbb.Proposal) fbb.ProposalAnswer {
 }
 
 func (h *DirHandler) SetSent(MID string, rejected bool) {
+	if !validMID(MID) {
+		log.Printf("Unable to mark %q as sent: invalid MID", MID)
+		return
+	}
 	oldPath := path.Join(h.MBoxPath, DIR_OUTBOX, MID+Ext)
 	newPath := path.Join(h.MBoxPath, DIR_SENT, MID+Ext)
 
